@@ -12,6 +12,15 @@ from .. import types as T
 from ..oracle import serdes as S, layout as L
 
 PROP = "C07"
+
+# arrays of composites (alignment 8 through their element type) right after sub-byte fields, and similar
+ALIGN_SHAPES = [
+    ["struct", ["u3", ["farr", ["struct", ["u8"]], 2], "u5"]],
+    ["struct", ["bool", ["varr", ["struct", ["u8", "bool"]], 2], "u8"]],
+    ["struct", ["u5", ["farr", ["delim", ["struct", ["u8"]], 16], 1], "bool"]],
+    ["union", ["u3", ["varr", ["struct", ["u16"]], 1]]],
+]
+
 REJ = ("rejected",)
 
 
@@ -209,7 +218,7 @@ def conditions(tier: str, seed: int) -> typing.List[Cond]:
     thorough = tier == "thorough"
     rnd = random.Random(seed)
     out = []  # type: typing.List[Cond]
-    shapes = [s for s in T.catalogue(tier, seed) if not _has_float(s)]
+    shapes = [s for s in T.catalogue(tier, seed) + ALIGN_SHAPES if not _has_float(s)]
     for spec in shapes:
         subbyte = any(x in repr(spec) for x in ("'u3'", "'bool'", "'i13'", "'u5'", "'void3'", "'tu9'", "'tu5'"))
         heavy = subbyte or "delim" in repr(spec[1:]) or "utf8" in repr(spec)
